@@ -355,7 +355,7 @@ func genFromRootOp(c *Ctx, allowMassive bool) Op {
 	switch c.Pick(6, 2, 1, 1, 2, 3, 3, 2, 2, 2) {
 	case 0:
 		op.Kind = "output"
-		op.Branch = branchSets[c.Pick(4, 1, 1, 1, 1)]
+		op.Branch = branchSets[c.Pick(4, 1, 1, 1, 1, 1, 1)]
 	case 1:
 		op.Kind, op.Encode = "output", 1
 	case 2:
@@ -367,7 +367,7 @@ func genFromRootOp(c *Ctx, allowMassive bool) Op {
 		op.Exts = extSets[c.Draw(len(extSets))]
 	case 5:
 		op.Kind = "walk"
-		op.Branch = branchSets[c.Pick(4, 1, 1, 1, 1)]
+		op.Branch = branchSets[c.Pick(4, 1, 1, 1, 1, 1, 1)]
 	case 6:
 		op.Kind = "walkiter"
 	case 7:
@@ -382,6 +382,9 @@ func genFromRootOp(c *Ctx, allowMassive bool) Op {
 	}
 	if allowMassive && op.Kind != "walkiter" && c.Chance(1, 4) {
 		op.Massive = true
+	}
+	if op.Kind == "walkiter" && c.Chance(1, 5) {
+		op.Massive = true // accepted and ignored by the iterator form
 	}
 	if c.Chance(1, 8) {
 		op.Alias = true
@@ -667,6 +670,15 @@ func caseC03(c *Ctx) {
 				c.Failf("C03:add-existing-returns-new-node", "Add(%q) of an existing name returned a different node", b.name)
 			}
 		}
+	}
+	if (op.Kind == "verify" || (op.Kind == "output" && op.DryRun)) && model.Count() >= 2 && c.Chance(1, 5) {
+		// a name that is not a single path element: both families must reject it alike
+		bad := []string{"a/b", "x/", "/abs", "p/q/r"}[c.Draw(4)]
+		victim := root.Add(bad)
+		_ = victim
+		model.Kids = append(model.Kids, &MNode{Name: bad})
+		prog = append(prog, fmt.Sprintf("Add(%q under %q)", bad, model.Name))
+		c.st.Count("invalid-name-for-validating-op")
 	}
 	c.Scenario["program"] = prog
 	c.Scenario["op"] = op.String()
